@@ -48,6 +48,21 @@ Section C14.
     0 < vbs -> acts_rowwise Bn bn -> acts_rowwise (ghost_bn Bn vbs) bn.
   Proof. exact ghost_bn_rowwise. Qed.
 
+  (* the chunk arithmetic itself (tabnet.py GhostBatchNorm1d.forward: math.ceil(len(x) / virtual_batch_size) and
+     torch.chunk, whose piece size is ceil(n / chunks)), for EVERY batch size n >= 1 and every virtual batch size
+     v >= 1: the pieces self.bn is called with partition the batch IN ORDER, each has between 1 and v rows, all but
+     the last have exactly ceil(n / ceil(n / v)) rows, and there are at most ceil(n / v) of them.  The row counts
+     `ghost_call_sizes v n` are compared on every TabNet case with the sizes observed by a forward hook on the
+     real inner BatchNorm1d. *)
+  Theorem ghost_chunks_partition_the_batch : forall {A} v (X : list A), 0 < v -> 0 < length X ->
+    let k := cdiv (length X) (cdiv (length X) v) in
+    let cs := torch_chunk (cdiv (length X) v) X in
+    concat cs = X /\
+    Forall (fun c => 0 < length c <= v) cs /\
+    (forall pre last, cs = pre ++ [last] -> Forall (fun c => length c = k) pre) /\
+    length cs <= cdiv (length X) v.
+  Proof. exact (@ghost_chunks_partition_lemma). Qed.
+
   (* ---------------- MLP ---------------- *)
   Theorem mlp_model_rowwise : forall {A} C (Enc : list A -> t3) enc_r Mlp mlp_r,
     acts_rowwise Enc enc_r -> acts_rowwise Mlp mlp_r ->
@@ -158,6 +173,7 @@ End C14.
 
 Print Assumptions batch_norm_eval_rowwise.
 Print Assumptions ghost_batch_norm_rowwise.
+Print Assumptions ghost_chunks_partition_the_batch.
 Print Assumptions mlp_model_rowwise.
 Print Assumptions sequential_blocks_rowwise.
 Print Assumptions fc_residual_block_is_rowwise.
@@ -251,6 +267,13 @@ Example ghost_bn_concrete :
   torch_chunk (cdiv 5 2) [[1]; [2]; [3]; [4]; [5]]%Z = [[[1]; [2]]; [[3]; [4]]; [[5]]]%Z /\
   ghost_bn (bn_eval z_ops [0] [1] [2] [1])%Z 2 [[1]; [2]; [3]; [4]; [5]]%Z = [[3]; [5]; [7]; [9]; [11]]%Z.
 Proof. vm_compute. split; reflexivity. Qed.
+
+(* the chunk sizes at the boundaries of the 512-row ghost batch: 1 / 2 / 3 / 4 / 5 pieces *)
+Example ghost_call_sizes_at_the_boundaries :
+  ghost_call_sizes 512 512 = [512] /\ ghost_call_sizes 512 513 = [257; 256] /\
+  ghost_call_sizes 512 1025 = [342; 342; 341] /\ ghost_call_sizes 512 1537 = [385; 385; 385; 382] /\
+  ghost_call_sizes 512 2049 = [410; 410; 410; 410; 409] /\ ghost_call_sizes 512 0 = [0].
+Proof. vm_compute. repeat split; reflexivity. Qed.
 
 (* ...whereas a TRAINING-mode batch norm (batch mean) inside the same ghost batch norm is NOT
    row-wise: the first row's output depends on the batch it is scored in.  This is what the
